@@ -63,6 +63,12 @@ def cases(draw):
         c["nd"] = draw(st.integers(250, 368))
         c["d0"] = str((pd.Timestamp("2018-01-01") + pd.Timedelta(days=draw(st.integers(0, 55)))).date())
         c["blocks"], c["cells"], c["complete_year"] = [], [], True
+    # the daily class also takes interval-meter readings (hourly usage next to the hourly feed): some meter days are then only partly
+    # read (10 or 20 of 24 hours) - the day stays a day of the frame and its temperature is still the mean of that day's readings
+    c["meter_res"] = "daily"
+    if c["family"] == "daily" and c["read_hour"] == 0 and c["step"] == 60 and draw(st.integers(0, 3)) == 0:
+        c["meter_res"] = "hourly"
+        c["meter_partial"] = draw(st.lists(st.tuples(st.integers(1, max(c["nd"] - 2, 1)), st.sampled_from([10, 12, 20])), max_size=3))
     if c["family"] == "billing":
         c["read_hour"] = 0
         c["nd"] = 30 * (draw(st.integers(2, 3)) if not c.get("complete_year") else draw(st.integers(9, 12)))  # whole 30-day periods
@@ -105,12 +111,20 @@ def judge(c, rec):
     tz = c["tz"]
     rng = np.random.default_rng(c["vseed"] + 1)
     mdays = days[:-1]
-    cls = ["family=" + c["family"], "step=%d" % c["step"], "feed=" + c["feed_tz"], "entry=" + c["entry"], "read_hour=%d" % c["read_hour"], "complete-year=%d" % bool(c.get("complete_year"))]
+    cls = ["family=" + c["family"], "step=%d" % c["step"], "feed=" + c["feed_tz"], "entry=" + c["entry"], "read_hour=%d" % c["read_hour"], "complete-year=%d" % bool(c.get("complete_year")), "meter=" + c.get("meter_res", "daily")]
     if c["family"] == "daily":
         meter = pd.Series(rng.integers(1, 100, len(mdays)).astype(float), index=mdays, name="observed")
         for k in c.get("zero_days", ()):
             if 0 < k < len(meter) - 1:
                 meter.iloc[k] = 0.0
+        if c.get("meter_res") == "hourly" and c["entry"] != "reporting_T_only":
+            hidx = T.index.tz_convert(tz)
+            day_of = np.clip(np.searchsorted(days.asi8, hidx.asi8, side="right") - 1, 0, len(mdays) - 1)
+            hm = pd.Series(meter.values[day_of] / 24.0 + 1.0, index=hidx, name="observed")
+            for k, keep in c.get("meter_partial", ()):
+                rows = np.nonzero(day_of == min(k, len(mdays) - 1))[0]
+                hm.iloc[rows[keep:]] = np.nan
+            meter = hm
         Cls = em.DailyBaselineData
     else:
         obs = pd.Series(np.nan, index=days)
